@@ -128,7 +128,7 @@ func cloneRange(p *rangeproof.Proof) *rangeproof.Proof {
 	}
 	return &rangeproof.Proof{
 		Cs: cloneInts(p.Cs), DResponses: cloneInts(p.DResponses), VResponses: cloneInts(p.VResponses),
-		V5Response: cp(p.V5Response), Ld: p.Ld, Sign: p.Sign, A: p.A, K: cp(p.K),
+		V5Response: cp(p.V5Response), MResponse: cp(p.MResponse), Ld: p.Ld, Sign: p.Sign, A: p.A, K: cp(p.K),
 	}
 }
 
